@@ -34,6 +34,8 @@ struct P {
     p_hold: u64,
     p_busy: u64,
     p_select: u64,
+    p_join: u64,
+    p_long_busy: u64,
     p_detached: u64,
     p_start_delay: u64,
     p_start_err: u64,
@@ -70,6 +72,8 @@ fn base() -> P {
         p_hold: 0,
         p_busy: 0,
         p_select: 2,
+        p_join: 3,
+        p_long_busy: 0,
         p_detached: 2,
         p_start_delay: 40,
         p_start_err: 4,
@@ -114,6 +118,7 @@ fn profile(name: &str) -> P {
             p.p_gate = 15;
             p.p_peer = 0;
             p.p_select = 0;
+            p.p_join = 0;
             p.p_detached = 0;
             p.p_hpanic = 0;
             p.p_kill_self = 0;
@@ -187,6 +192,7 @@ fn profile(name: &str) -> P {
             p.p_sleep = 70;
             p.sleeps = vec![2, 4, 6, 8, 10, 20];
             p.timeouts = vec![2, 2, 4, 6, 10, 20, 50];
+            p.p_long_busy = 2;
             p.caps = vec![Some(1), Some(1), Some(2), Some(4), None];
             p.p_start_err = 3;
             p.p_hpanic = 3;
@@ -196,6 +202,7 @@ fn profile(name: &str) -> P {
             p.clients = (3, 7);
             p.ops = (2, 7);
             p.p_peer = 30;
+            p.p_join = 8;
             p.p_in_peers = 90;
             p.p_hpanic = 0;
             p.p_start_panic = 0;
@@ -311,6 +318,17 @@ impl G {
                     body,
                 });
             }
+        }
+        if self.r.chance(self.p.p_join) {
+            if let (Some(t1), Some(t2)) = (self.downstream(a), self.downstream(a)) {
+                let b1 = self.sub_body(t1, 2);
+                let b2 = self.sub_body(t2, 2);
+                s.push(Step::JoinAsk { t1, b1, t2, b2 });
+            }
+        }
+        if self.r.chance(self.p.p_long_busy) {
+            // a handler that takes real (wall-clock) time without any virtual time passing
+            s.push(Step::Busy(2200 + self.r.below(1500)));
         }
         if self.r.chance(self.p.p_select) {
             if let Some(t) = self.downstream(a) {
@@ -784,6 +802,10 @@ fn finish(g: &mut G, profile_name: &str, seed: u64, mut actors: Vec<ActorSpec>, 
             for s in steps.iter_mut() {
                 if let Step::Peer { body, .. } | Step::SelectAsk { body, .. } | Step::DetachedAsk { body, .. } = s {
                     strip(&mut body.steps);
+                }
+                if let Step::JoinAsk { b1, b2, .. } = s {
+                    strip(&mut b1.steps);
+                    strip(&mut b2.steps);
                 }
             }
         }
